@@ -73,14 +73,14 @@ class Case:
         self.vec = vec
         self.text = ""
         self.modes = []      # (mode, Prog, query text)
-        base = {k: vec[k] for k in ("prog", "q", "qv", "ans", "status", "ball", "balts", "dynkeys")}
+        base = {k: vec.get(k, []) for k in ("prog", "q", "qv", "ans", "status", "ball", "balts", "dynkeys")}
         alt = {a["mode"]: a["o"] for a in vec["alt"]}
         self.alt = alt
         has_p2 = any(terms.name_of(c["h"]["n"]) == "p2" for c in vec["prog"]) or bool(vec["dynkeys"])
 
         def expect(v, mode):
             if mode in alt:
-                v["ans"], v["status"], v["ball"], v["balts"] = alt[mode]["ans"], alt[mode]["status"], alt[mode]["ball"], alt[mode]["balts"]
+                v["ans"], v["status"], v["ball"], v["balts"] = alt[mode]["ans"], alt[mode]["status"], alt[mode]["ball"], alt[mode].get("balts", [])
             return v
 
         def dyn_decl(pr):
